@@ -392,6 +392,7 @@ Definition do_child (cis : Z) (o : opts) (ps0 : list parent) (hist : Z -> hres)
   match hist fid with
   | HError => Err EDatasource
   | HNotFound => if o_ignore_missing o then Ok st else Err (ENoHistory fid)
+  | HFound [] => if o_ignore_missing o then Ok st else Err (ENoHistory fid)   (* len(child) == 0 *)
   | HFound cl => fold_res (do_group cis o ps0 fid cl) (group_by_parent locations) st
   end.
 
